@@ -1983,8 +1983,8 @@ class Cache:
 
                 # Check for empty directories.
 
-                for dirpath, dirs, files in os.walk(self._directory):
-                    if not (dirs or files):
+                for dirpath, _, _ in os.walk(self._directory, topdown=False):
+                    if not os.listdir(dirpath):
                         message = 'empty directory: %s' % dirpath
                         warnings.warn(message, EmptyDirWarning)
 
